@@ -104,7 +104,8 @@ CLAIMS = {
        "iteration hidden inside dependencies (serde_yaml / indexmap are order-preserving), exit codes (order-free folds: C06). No Kani "
        "harness serves this property (a HashMap with symbolic keys does not terminate under CBMC)."
        "Added later: every static / thread_local item of the crate is enumerated from the MIR of the current tree; none may be writable after its one-time initialisation (no static mut, no thread_local, no interior mutability inside a static). Degenerate solver part (a finite table), stated as an obligation so the evidence lists the sites; replayed by an isolation battery (two documents of equal shape, one compliant, one not, all built-ins)."
-       "Added later: every call that reads an environment variable, the local time zone, a clock or a random source is enumerated (only now() and the elapsed-time stamps are allowed); TZ / LANG / HOME replay.",
+       "Added later: every call that reads an environment variable, the local time zone, a clock or a random source is enumerated (only now() and the elapsed-time stamps are allowed); TZ / LANG / HOME replay."
+       " Added last: colour decisions - the functions that format a ColoredString through its own Display (which consults CLICOLOR / NO_COLOR / isatty) are enumerated from MIR and must be console reporters / stderr messages only; replay runs every structured format of validate and test under CLICOLOR_FORCE / NO_COLOR / CLICOLOR=0.",
   design="0b/C05"),
  "C06": dict(
   text="Bounded model checking of the two pure exit-code kernels: commands::test::get_exit_code folded over any sequence of <= 4 "
@@ -142,7 +143,8 @@ CLAIMS = {
        "SARIF result list, stdin handling, clap. Known discrepancy on this tree (recorded as the C09 known finding, not re-raised here): "
        "for a rule NAME defined several times the console summary table drops SKIP when another definition passed or failed, the "
        "structured report lists the name under both. No Kani harness serves this property."
-       "Added later: the SARIF fold pushes exactly one result per message of a failing check ((0, 0) when the message has no location - never dropped); sarif-vs-json replay; the per-rules-file exit-code fold obligations of C06 also run here.",
+       "Added later: the SARIF fold pushes exactly one result per message of a failing check ((0, 0) when the message has no location - never dropped); sarif-vs-json replay; the per-rules-file exit-code fold obligations of C06 also run here."
+       " Added last: JUnit escaping sites (every attribute reaches quick-xml as (&str, &str), every text / element through an escaping constructor - enumerated from MIR, with a replay on paths / messages / test names containing & < > quotes, marks compared with -o json); SARIF per-file step (what a data file contributes does not depend on the files before it).",
   design="0b/C07"),
  "C08": dict(
   text="Panic-freedom (Kani's panic/overflow/bounds/unwrap checks) of every harnessed kernel for all inputs in its bound, in particular "
@@ -159,7 +161,8 @@ CLAIMS = {
   note="NOT covered: arbitrary bytes through the nom parser and libyaml, recursion depth, the report builder's unreachable!()s, "
        "operators.rs match_value. K14 stubs values::read_from (forced to fail) and str::trim (identity)."
        "Added later: get_exit_code's match ends in unreachable!(): at both call sites (<= 2 rules files) accumulator and per-file code are one of its three codes."
-       "Added later: SliceDisplay::fmt as an index site (empty lists); record_unary_clause never records a Literal + the report builder is total on unary records (D14); Loader::load requests no event after the stream end (D17); handle_sequence_end.",
+       "Added later: SliceDisplay::fmt as an index site (empty lists); record_unary_clause never records a Literal + the report builder is total on unary records (D14); Loader::load requests no event after the stream end (D17); handle_sequence_end."
+       " Added last: short_form_to_long's unreachable!() arm - every member of SINGLE_VALUE_FUNC_REF u SEQUENCE_VALUE_FUNC_REF is a key of SHORT_FORM_TO_LONG_MAPPING (tables read off their lazy_static initialisers, decided over a String symbol; the model is the tag that panics).",
   design="4/C08"),
  "C09": dict(
   text="Bounded model checking of the combination rule: FileReport::combine / Status::and over up to 4 parts give FAIL iff some "
@@ -217,7 +220,8 @@ CLAIMS = {
        "of the short-form intrinsic tables beyond their shape (every short tag maps to an `Fn::`/`Ref` long form, sequence vs single-value "
        "sets disjoint), aliases and non-string keys, key/list order, libyaml itself. No Kani harness serves this property."
        "Added later: at the libyaml boundary the scalar's bytes are from_raw_parts(scalar.value, scalar.length) of the same event (not a C-string reading); replay with embedded NUL characters through validate and test."
-       "Added later: handle_sequence_end closes every sequence - also an empty one - the same way (short-form tag folding); the MarkedValue conversion obligation of C10 also runs here.",
+       "Added later: handle_sequence_end closes every sequence - also an empty one - the same way (short-form tag folding); the MarkedValue conversion obligation of C10 also runs here."
+       " Added last: every-known-tag-has-a-long-form (see C08).",
   design="0b/C11"),
  "C12": dict(
   text="Bounded symbolic execution (MIR, callees modelled, value identities tracked; z3+cvc5) of the three validate loops that pair "
@@ -231,7 +235,8 @@ CLAIMS = {
        "shared between pairs; it does NOT decide that RootScope holds all mutable state, directory walking / ordering (-a / -m), "
        "the content of merged input parameters (wiring of the merge is under C17). No Kani harness serves this property."
        "Added later: the process-wide-state enumeration of C05 (nothing outlives one evaluation's scope) with its isolation battery."
-       "Added later: the per-rules-file exit-code fold (`the run reports failure iff some pair does`) and the hash-order obligations of C05 also run here; per-<testsuite> replay for junit.",
+       "Added later: the per-rules-file exit-code fold (`the run reports failure iff some pair does`) and the hash-order obligations of C05 also run here; per-<testsuite> replay for junit."
+       " Added last: SARIF per-file step (one SarifResults::from((check, report.name)) handed unchanged to extend_results, no other call, no other capture) with a replay on copies of one data file in several orders.",
   design="0b/C12"),
  "C13": dict(
   text="Bounded model checking of the comparison kernel: for ALL pairs of i64, ALL pairs of f64 (NaN => not comparable, -0.0 == 0.0), "
@@ -271,7 +276,8 @@ CLAIMS = {
        "is refuted, not decided by a solver. No Kani harness serves this property."
        "Added later: `.n` and `[n]` - the two conversion closures run on ONE shared symbolic i64 literal (second executor's symbols renamed apart, casts with exact wrap-around) build the same QueryPart::Index for every literal; 28 spelling pairs in the native replay, incl. literals >= 2^31."
        "Added later: rules_file files every top-level line as ONE conjunction entry of the implicit default rule (its `or` alternatives together)."
-       "Added later: comment2's wiring (delimited('#', take_till(c == newline), multispace0)); comment-at-end-of-file spelling pairs.",
+       "Added later: comment2's wiring (delimited('#', take_till(c == newline), multispace0)); comment-at-end-of-file spelling pairs."
+       " Added last: layout skippers - the functions that hand a bare whitespace skipper (no comments) to a combinator are the stated table; or_join is comment-aware on both sides; five comment-before-`or` spelling pairs.",
   design="0b/C14"),
  "C15": dict(
   text="Bounded symbolic execution (MIR, callees modelled, value identities tracked; z3+cvc5) of the resolution machinery: "
@@ -357,7 +363,8 @@ CLAIMS = {
        "C01's 'unresolved = FAIL' (this one obligation is about a model of the round trip, not about one function's MIR) and replayed by "
        "rulegen + validate. Also not decided: what serde's to_string prints for a value, the quoting / newline stripping, serde's reading of the template, the name "
        "mangling (`::` -> `_`, lower case) beyond the call sequence. No Kani harness serves this property."
-       "Added later: the template is read exactly once, by serde_yaml::from_str (a second, differently rounding reader tried first refutes it); long-float template in the replay; KF3 (rule names not injective).",
+       "Added later: the template is read exactly once, by serde_yaml::from_str (a second, differently rounding reader tried first refutes it); long-float template in the replay; KF3 (rule names not injective)."
+       " Added last: the validate loader's scalar typing cascade (C11) also runs here: the round trip needs validate to read a number wherever rulegen's serde reader read one.",
   design="0b/C19"),
 }
 
